@@ -595,7 +595,14 @@ def run(ctx):
             rnd.append((toks, init))
     check_programs(ctx, rnd, "random", ctx.rng)
     check_macros(ctx, 200 if q else 5000)
-    check_end_to_end(ctx, rnd[:60 if q else 1500])
+    # directed: a declaration right after a directive whose condition contains `&&` (regression, fixed in /repo) and after #elif/#else
+    A, B = ("def", "A"), ("def", "B")
+    directed = [
+        ([("if", ("and", A, B)), ("text", "t"), ("text", "t"), ("endif",)], {"A": 1, "B": 3}),
+        ([("if", ("and", A, ("not", B))), ("text", "t"), ("elif", ("and", A, B)), ("text", "t"), ("text", "t"), ("else",), ("text", "t"), ("endif",), ("text", "t")], {"A": 1, "B": 3}),
+        ([("ifdef", "A"), ("if", ("or", ("and", B, A), ("int", 0))), ("text", "t"), ("endif",), ("text", "t"), ("endif",)], {"A": 1, "B": 2}),
+    ]
+    check_end_to_end(ctx, directed + rnd[:60 if q else 1500])
 
 
 def replay(ctx, path):
